@@ -487,8 +487,18 @@ func (f *FuncCFG) expandBoolTemp(ft fact, pt Point, depth int) []fact {
 		return []fact{ft}
 	}
 	rhs := ast.Unparen(defs[0].Rhs)
+	defAt := defs[0].At
 	if as, isAs := f.nodeAt(defs[0].At).(*ast.AssignStmt); isAs && len(as.Lhs) != len(as.Rhs) {
-		return []fact{ft} // one result of a tuple (call, receive, map lookup): not an expression of its own
+		rhs = nil // one result of a tuple: only meaningful through a spliced helper (below)
+	}
+	if _, isCall := rhs.(*ast.CallExpr); isCall || rhs == nil {
+		// the result of a spliced helper with one return site: the expression it returns there
+		// (`wake := m.release(); ...; if wake` with release computing `wake = a && b` under its lock)
+		re, rpt := f.Resolve(id, pt)
+		if re == ast.Expr(id) || re == nil {
+			return []fact{ft}
+		}
+		rhs, defAt = ast.Unparen(re), rpt
 	}
 	switch x := rhs.(type) {
 	case *ast.BinaryExpr, *ast.Ident:
@@ -548,7 +558,7 @@ func (f *FuncCFG) expandBoolTemp(ft fact, pt Point, depth int) []fact {
 	}
 	// is there a path definition -> (node assigning an operand) -> branch ?
 	dirty := false
-	from := Point{defs[0].At.B, defs[0].At.I + 1}
+	from := Point{defAt.B, defAt.I + 1}
 	f.reach(from, nil, func(q Point, atExit bool) bool {
 		if atExit || dirty {
 			return dirty
@@ -568,7 +578,7 @@ func (f *FuncCFG) expandBoolTemp(ft fact, pt Point, depth int) []fact {
 	}
 	var out []fact
 	for _, sub := range factsOn(rhs, ft.Pol) {
-		out = append(out, f.expandBoolTemp(sub, defs[0].At, depth-1)...)
+		out = append(out, f.expandBoolTemp(sub, defAt, depth-1)...)
 	}
 	if len(out) == 0 {
 		// the polarity cannot be decomposed (e.g. the false edge of a conjunction): no atom facts
@@ -2578,4 +2588,21 @@ func (f *FuncCFG) boundLiteral(e ast.Expr, pt Point) (*ast.FuncType, *ast.BlockS
 		}
 	}
 	return nil, nil
+}
+
+// EdgeFacts: the atoms known on the true/false edge of the branch that ends block b, decomposed
+// through helpers and boolean temporaries (what forEachEdgeFact reports for that edge).
+func (f *FuncCFG) EdgeFacts(b *cfg.Block, branch bool) []fact {
+	c := condOf(b)
+	if c == nil {
+		return nil
+	}
+	if tag, ok := caseTagOf[c]; ok {
+		c = &ast.BinaryExpr{X: tag, Op: token.EQL, Y: c}
+	}
+	var out []fact
+	for _, ft := range factsOn(c, branch) {
+		out = append(out, f.expandBoolTemp(ft, Point{b, len(b.Nodes) - 1}, 3)...)
+	}
+	return out
 }
